@@ -343,6 +343,33 @@ def run(ctx):
                         counts["sound-checked"] += 1
                     except Undecided:
                         counts["oracle-undecided"] += 1
+                # submission requirement bounds, judged where the count is unambiguous: one top-level `from` requirement,
+                # every group member listed once, candidates pairwise different credentials
+                if len(pd["srs"]) == 1 and not pd["srs"][0]["nested"] and pd["srs"][0]["from"] and len({d["id"] for d in pd["descs"]}) == len(pd["descs"]):
+                    sr = pd["srs"][0]
+                    try:
+                        members = [d for d in pd["descs"] if sr["from"] in d["group"]]
+                        if all(d["group"].count(sr["from"]) == 1 for d in members):
+                            cand = [next((c for c in wallet if satisfies(pd, d, c, retbl)), None) for d in members]
+                            avail = [c["name"] for c in cand if c is not None and not c["selEmpty"]]
+                            if len(set(avail)) == len(avail):
+                                nsel, shape = len(vcs), None
+                                if sr["rule"] == "all":
+                                    if nsel != len(members):
+                                        shape = "all"
+                                elif "count" in sr:
+                                    if nsel != sr["count"]:
+                                        shape = "count"
+                                else:
+                                    if "max" in sr and nsel > sr["max"]:
+                                        shape = "max-0" if sr["max"] == 0 else "max"
+                                    if "min" in sr and nsel < sr["min"]:
+                                        shape = "min-greater-than-max" if "max" in sr and sr["max"] < sr["min"] else "min"
+                                if shape:
+                                    report("C12:sr-rule-violated:" + shape, f"selection of {nsel} credential(s) violates the submission requirement {json.dumps({k: v for k, v in sr.items() if k != 'nested'})}", i)
+                                counts["sr-bounds-checked"] += 1
+                    except Undecided:
+                        counts["oracle-undecided"] += 1
                 if not pd["srs"]:
                     ids = [x[0] for x in maps]
                     if ids != [d["id"] for d in pd["descs"]]:
